@@ -113,11 +113,11 @@ class Sim:
             # file system reports (here: a fixed 10^6 bytes) plus the files the ringbuffer would manage that exist already;
             # N is chosen so that the resulting limit is the same number of bytes as in the plain form
             X = 1000000
-            inwin = 0
+            present = {}
             for fi, sz in case["negsize"]:
                 self._touch(os.path.join(self.root, self.files[fi]["rel"]), sz)
-                if self.in_window_key(self.files[fi]["key"], win):
-                    inwin += sz
+                present[fi] = sz  # (a file listed twice has been re-written: its last size counts)
+            inwin = sum(sz for fi, sz in present.items() if self.in_window_key(self.files[fi]["key"], win))
             size_arg = -(X + inwin - lim["size"])
 
             class _SV(object):
@@ -170,6 +170,13 @@ class Sim:
         os.makedirs(os.path.dirname(p), exist_ok=True)
         with open(p, "wb") as f:
             f.write(b"\0" * size)
+        if self.case.get("linked") and os.stat(p).st_nlink == 1:
+            # every file of the tree also has a second name outside it (an archive made with `drf ln` / `cp -l`): the
+            # link count of a file is not the ringbuffer's business - its size is what it occupies in the budget
+            snap = os.path.join(self.base, "snapshot")
+            os.makedirs(snap, exist_ok=True)
+            self._nlinks = getattr(self, "_nlinks", 0) + 1
+            os.link(p, os.path.join(snap, "%06d" % self._nlinks))
 
     def path(self, i):
         nf = len(self.files)
@@ -586,6 +593,7 @@ def _cases(draw, tier):
     # how the watched directory is named, and an optional time window (aware or naive datetimes; a start time only without
     # metadata groups, whose listing adds the forward-fill file that the event filter does not know)
     case["relroot"] = draw(st.sampled_from([None, None, None, "data", "./data/"]))
+    case["linked"] = draw(st.integers(0, 3)) == 0
     t0 = draw(st.sampled_from([T0, T0, T0, 0]))
     if t0 != T0:
         case["t0"] = t0
@@ -661,6 +669,14 @@ def run_live(case):
 
         if case["live"] != "late-root":
             build(root, 5)
+            if case.get("mtimes"):
+                # the files found at start carry modification times that say nothing about their place in the recording:
+                # written by a host whose clock was a day ahead / restored from an archive with old times
+                res.cls("live:existing-files-mtime-" + case["mtimes"])
+                t_ = time.time() + (86400 if case["mtimes"] == "future" else -10 * 86400)
+                for ch in ("ch0", "ch1"):
+                    for i in (0, 1, 3):
+                        os.utime(os.path.join(root, rel(i, ch)), (t_, t_))
         out = io.StringIO()
         with contextlib.redirect_stdout(out):
             rb = ringbuffer.DigitalRFRingbuffer(root, count=3, size=None, verbose=bool(case.get("verbose")), status_interval=3600)
@@ -764,6 +780,8 @@ def directed_cases(tier):
     # the real observer threads
     for sc in ("existing-then-live", "late-root", "root-replaced"):
         out.append({"live": sc, "verbose": sc == "late-root", "ops": [], "limits": {"count": 3}})
+    for mt in ("future", "old"):
+        out.append({"live": "existing-then-live", "mtimes": mt, "verbose": False, "ops": [], "limits": {"count": 3}})
     # recordings that begin at the epoch: the oldest file of the group has time 0
     for lim in ({"count": 2}, {"size": 8192}, {"duration": 1000}):
         out.append({"nch": 1, "kinds": ["rf", "dmd"], "slots": 6, "limits": lim, "t0": 0, "ops":
